@@ -21,6 +21,7 @@ type Env struct {
 	old  *snapshot // what old(...) refers to
 	vars map[string]Val
 	what string // for error messages
+	loopSnap *snapshot // heap at loop entry, for atloop(...)
 }
 
 type specErr struct{ msg string }
@@ -167,7 +168,7 @@ func (e *Env) evalPlace(x ast.Expr) place {
 		case *types.Slice:
 			i := e.eval(x.Index)
 			ea := extendIdx(base.L[0], tAddInt(base.L[1], i.L[0]))
-			e.x.elemInfo[ea] = elemRef{arr: base.L[0], idx: tAddInt(base.L[1], i.L[0])}
+			e.x.elemInfo[ea] = elemRef{arr: base.L[0], idx: tAddInt(base.L[1], i.L[0]), sl: [3]Term{base.L[0], base.L[1], base.L[2]}, rel: i.L[0], hasSl: true}
 			return place{isAddr: true, addr: ea, T: bt.Elem()}
 		case *types.Map:
 			k := e.eval(x.Index)
@@ -473,6 +474,12 @@ func (e *Env) evalCall(c *ast.CallExpr) Val {
 			e.fail("old() used where no pre-state exists")
 		}
 		return e.withCur(e.old).eval(arg(0))
+	case "atloop":
+		// atloop(e): e evaluated in the heap as it was when the loop was entered
+		if e.loopSnap == nil {
+			e.fail("atloop() used outside a loop invariant")
+		}
+		return e.withCur(e.loopSnap).eval(arg(0))
 	case "fresh":
 		v := e.eval(arg(0))
 		r := v.L[0]
@@ -520,6 +527,28 @@ func (e *Env) evalCall(c *ast.CallExpr) Val {
 		// allocated(p): p existed in the pre-state of the enclosing contract
 		v := e.eval(arg(0))
 		return boolVal("(<= " + tRid(v.L[0]) + " " + e.old.alloc + ")")
+	case "elems":
+		// elems(s): the set of elements of a slice of string-kinded values (or of
+		// interface values boxing such values); slices are treated as immutable
+		v := e.eval(arg(0))
+		st, ok := v.T.Underlying().(*types.Slice)
+		if !ok {
+			e.fail("elems of non-slice %s", v.T)
+		}
+		et := st.Elem()
+		if isInterface(et) {
+			et = tyString
+		}
+		if ls := leavesOf(et); len(ls) != 1 || ls[0].Sort != "String" {
+			e.fail("elems: element type %s is not string-kinded", st.Elem())
+		}
+		return Val{T: setType(et), L: []Term{e.st.elemsOf([3]Term{v.L[0], v.L[1], v.L[2]})}}
+	case "subset":
+		a, b := e.eval(arg(0)), e.eval(arg(1))
+		return boolVal("(forall ((q_ String)) (=> (select " + a.L[0] + " q_) (select " + b.L[0] + " q_)))")
+	case "emptyinter":
+		a, b := e.eval(arg(0)), e.eval(arg(1))
+		return boolVal("(forall ((q_ String)) (not (and (select " + a.L[0] + " q_) (select " + b.L[0] + " q_))))")
 	case "emptyset":
 		t := setType(e.x.typeOfExpr(arg(0)))
 		return Val{T: t, L: []Term{zeroOfSort(leavesOf(t)[0].Sort)}}
